@@ -9,6 +9,8 @@ pub mod oleap;
 pub mod ozone;
 pub mod dtinv;
 pub mod search;
+pub mod tzstr;
+pub mod tzif;
 pub mod run;
 pub mod props;
 pub mod known;
